@@ -35,7 +35,7 @@ ASSUMPTIONS = [
 ]
 
 # flip to True once uk2dt keeps the microseconds (then the generated cases include the class again)
-INCLUDE_UK_FRACTION_LOW_DAYS = False
+INCLUDE_UK_FRACTION_LOW_DAYS = True
 UK_FRACTION = 'uk2dt rebuilds the swapped date through dt(y, m, d, h, mi, s, us) which ignores its 7th argument: microseconds are dropped when day <= 12'
 
 SEPS = ['-', '/', '.', ' ']
